@@ -11,7 +11,7 @@ from tangermeme.ism import saturation_mutagenesis
 PROPERTY = "C09"
 LEVEL = "exploration"
 RULE = ("cases = (alphabet 2-5, batch of 1-3 sequences of length 1-30, window [start,end) or the default end, batch size "
-        "1..A*L+1, exact integer model with tensor (n,T) / (n,T1,T2) / tuple outputs, 0-2 per-example extra args, target "
+        "1..3*A*W+2 and the default 32, exact integer model with tensor (n,T) / (n,T1,T2) / tuple outputs, 0-2 per-example extra args, target "
         "int/slice/None, raw / attribution / hypothetical mode) drawn by Hypothesis. Oracle = explicit per-mutant forward passes "
         "of the same exact model (one example at a time) and the documented aggregation. Non-trivial: window length >= 2 and "
         "(window != whole sequence or tuple output or batch size not dividing A*W). Distinct = SHA-1 of case JSON.")
@@ -131,7 +131,7 @@ def strategy(draw):
         else:
             outputs.append([draw(st.integers(1, 3)), draw(st.integers(1, 3))])
     mode = draw(st.sampled_from(["raw", "raw", "attr", "hyp"])) if container == "tensor" else "raw"
-    case = {"A": A, "seqs": seqs, "start": start, "end": end, "batch_size": draw(st.integers(1, A * Wd + 1)),
+    case = {"A": A, "seqs": seqs, "start": start, "end": end, "batch_size": draw(st.one_of(st.integers(1, A * Wd + 1), st.integers(A * Wd, 3 * A * Wd + 2), st.just(32))),
             "outputs": outputs, "container": container, "seed": draw(st.integers(0, 10 ** 6)), "mode": mode,
             "dtype": draw(st.sampled_from(["float64", "int8", "float32"]))}
     nargs = draw(st.integers(0, 2))
